@@ -550,6 +550,8 @@ func (e *eng) random() {
 	r.Nontrivial = len(s) >= 2
 }
 
+const scope = "complete only for corpus records of at most 24 bytes (every truncation, every single-byte substitution with all 256 values, every single-bit flip, every lost/duplicated chunk of 1-3 bytes); longer records get every truncation up to 200 bytes and sampled substitutions / flips, so the run as a whole is not claimed exhaustive"
+
 func main() {
 	driver.Main(&driver.Spec{
 		Property: "C08",
@@ -570,9 +572,9 @@ func main() {
 				buildCorpus()
 			}
 			if tier == "thorough" {
-				return driver.Plan{Enum: len(corpus), Random: 3000000, Exhaustive: true, WallLimit: 25 * time.Minute}
+				return driver.Plan{Enum: len(corpus), Random: 3000000, Exhaustive: false, WallLimit: 25 * time.Minute, ExhaustiveScope: scope}
 			}
-			return driver.Plan{Enum: len(corpus), Random: 100000, Exhaustive: true, WallLimit: 5 * time.Minute}
+			return driver.Plan{Enum: len(corpus), Random: 100000, Exhaustive: false, WallLimit: 5 * time.Minute, ExhaustiveScope: scope}
 		},
 		RunOne: func(r *driver.Run) {
 			if len(corpus) == 0 {
